@@ -271,6 +271,25 @@ def read_run(ops, outs):
         if f[0] == "start" and o == "parked":
             parked = f[1]        # arrived, not decided yet: the decision shows at `unpark` or in front of a completion
             continue
+        if f[0] == "start" and o.startswith("unparked "):
+            # a second arrival found the first parked and holding the lock: both were decided at this instant, the parked one
+            # first; only the final state is printed, and at one instant only the first decision can have moved the state
+            g = o.split()
+            st = g[4:] if len(g) >= 5 and g[2] == "then" else []
+            ok = len(g) >= 5 and g[1] in ("pass", "fallback") and g[3] in ("pass", "fallback") and st and st[0] in ("standby", "tripped", "recovering")
+            s0 = state
+            if ok:
+                state = st[0]
+            for who, ans in ((parked, g[1] if ok else "lost"), (f[1], g[3] if ok else "lost")):
+                e = Ev()
+                e.kind, e.t, e.idx, e.id, e.code, e.orc, e.syn, e.until = "start", now, i, who, None, [], False, None
+                e.out = ans + " " + " ".join(st)
+                e.before = s0 if who == parked else state
+                e.after = state
+                e.extra = "" if ok and [x for x in st[1:] if not x.startswith("until=")] == [] else "unreadable:" + o
+                evs.append(e)
+            parked = None
+            continue
         if f[0] == "finish" and o.startswith("unparked "):
             # the parked request was decided first (it held the lock), then the completion went on
             g = o.split()
@@ -761,11 +780,14 @@ class Builder:
         self.lines.append("park-warn 1")
         a = self.start()
         self.lines.append("park-warn 0")
+        if r.random() < 0.4:
+            # a second request arrives while the first is parked (on this code: waits for the lock, both are decided in order)
+            self.probe(mood, hold=0.3)
         if r.random() < 0.3:
             self.adv(r.choice([1, MS, self.cp + 1]))
         for i in r.sample(others, min(len(others), r.randint(0, 2))):
             self.finish(i, self.code(r.choice(["bad", "bad", mood])))
-        self.adv(r.choice([0, 1, self.cp + 1, self.fb // 5, self.fb // 2, max(self.fb - 1, 0), self.rec // 4]))
+        self.adv(r.choice([0, 1, self.cp + 1, self.fb // 5, self.fb // 2, max(self.fb - 1, 0), self.rec // 4 if self.rec < DAY else MS]))
         self.lines.append("unpark " + a)
         if r.random() < 0.7:
             self.finish(a, self.code(mood))
@@ -859,8 +881,18 @@ def park_retrip(rng):
         t = b.now
         b.lines.append("state")
         b.adv(rng.choice([1, fb // 100 + 1, fb // 5, fb // 2, max(fb - 1, 1)]))
-        b.lines.append("unpark " + a)
-        b.finish(a, 200)
+        if rng.random() < 0.5:
+            b.lines.append("unpark " + a)
+            b.finish(a, 200)
+        else:
+            # parked inside the new fallback window, and a second arrival while it is parked
+            b.lines.append("unpark " + a)
+            b.lines.append("park-warn 1")
+            a2 = b.start()
+            b.lines.append("park-warn 0")
+            b.probe("good", hold=0)
+            b.lines.append("unpark " + a2)
+            b.finish(a, 200)
         b.lines += ["state", "effects"]
     return b.lines
 
@@ -1003,9 +1035,26 @@ def ambiguous(lines, outs):
     return idx
 
 
+def in_clock_range(lines):
+    """every deadline the breaker can compute (now + fallback/recovery duration) must fit the protocol's int64 ns since hx.Base"""
+    now = 0
+    for l in lines:
+        f = l.split()
+        if f[0] == "at":
+            now = max(now, int(f[1]))
+        elif f[0] == "adv":
+            now += int(f[1])
+        elif f[0] == "burst":
+            now += int(f[1]) * int(f[2])
+    c = lines[0].split()
+    if now + max(int(kvget(c, "fb", "0")), int(kvget(c, "rec", "0"))) >= 2 ** 63 - 2 ** 56:
+        return ["# dropped: the scenario would run past the int64 clock range", "cfg fb=1 rec=1 cp=1 px=bad go=!"]
+    return lines
+
+
 def gen(rng, tier, focus):
     n = {"quick": 260, "thorough": 2600, "search": 300}.get(tier, 260)
-    raws = [raw_scenario(rng, focus) for _ in range(n)]
+    raws = [in_clock_range(raw_scenario(rng, focus)) for _ in range(n)]
     ann = annotate(raws)
     # a `finish` of a request that was answered by the fallback is `bad-op` on both sides: keep only a few
     for k in range(n):
@@ -1041,6 +1090,8 @@ def describe(ops, outs, hist):
     for l, o in zip(ops, outs):
         if o == "parked":
             hist["park:parked"] += 1
+        elif o.startswith("unparked ") and l.startswith("start"):
+            hist["park:decided-before-second-arrival"] += 1
         elif o.startswith("unparked "):
             hist["park:decided-before-completion"] += 1
         elif l.startswith("unpark ") and o != "bad-op":
@@ -1053,8 +1104,10 @@ def describe(ops, outs, hist):
     for l in ops:
         if l.startswith("# nudged="):
             hist["float:nudged-inputs"] += int(l.split("=")[1])
-        if l.startswith("# dropped"):
+        if l.startswith("# dropped: float"):
             hist["float:dropped-scenarios"] += 1
+        if l.startswith("# dropped: the scenario would run past"):
+            hist["clock:dropped-scenarios"] += 1
     cfg, evs = read_run(ops, outs)
     if cfg is None:
         hist["cfg:rejected"] += 1
